@@ -53,12 +53,22 @@ func agree(kind string, p []tlog.Hash, t int64, th tlog.Hash, n int64, h tlog.Ha
 				msg = fmt.Sprintf("panic: %v", e)
 			}
 		}()
+		// the proof is a window of a longer array: what lies behind its end belongs to the caller
+		pw, intact := enum.Spare(p, tlog.Hash{0x5e, 0x5e, 0x5e}, 2)
 		if kind == "record" {
-			err = tlog.CheckRecord(tlog.RecordProof(p), t, th, n, h)
+			err = tlog.CheckRecord(tlog.RecordProof(pw), t, th, n, h)
 			want = rfc6962.VerifyInclusion(toRef(p), t, n, th, h)
 		} else {
-			err = tlog.CheckTree(tlog.TreeProof(p), t, th, n, h)
+			err = tlog.CheckTree(tlog.TreeProof(pw), t, th, n, h)
 			want = rfc6962.VerifyConsistency(toRef(p), n, t, h, th)
+		}
+		if !intact() {
+			msg = "the checker wrote into the caller's array behind the end of the proof"
+		}
+		for i := range p {
+			if pw[i] != p[i] {
+				msg = "the checker changed the proof it was given"
+			}
 		}
 	}()
 	if msg != "" {
